@@ -225,6 +225,63 @@ func checkC06(w *Worker) {
 	}
 	// every period-aware command shape of the master list (global flags), on the window with a reduced set of bounds
 	shapes := shapeArgs(func(s cmdShape) bool { return s.Period })
+	// zones with daylight-saving rules: keyword bounds are calendar arithmetic on --today, and a transition between
+	// the bound and today must not move the bound off the day's heading. Every zone x every --today next to one of
+	// the 2021 transitions x every keyword as begin or end x a log of the days around the bound.
+	dstZones := []string{"Europe/Berlin", "Europe/London", "America/New_York", "Australia/Lord_Howe", "America/St_Johns", "Pacific/Auckland", "Asia/Kathmandu", "America/Santiago"}
+	dstTodays := []string{"2021/03/17", "2021/03/29", "2021/04/06", "2021/04/12", "2021/09/27", "2021/10/04", "2021/11/01", "2021/11/08", "2021/04/26", "2021/10/30"}
+	fromDayNumber := func(n int) string { // inverse of dayNumber (integer arithmetic only)
+		a := n + 32044
+		b := (4*a + 3) / 146097
+		c := a - 146097*b/4
+		d := (4*c + 3) / 1461
+		e := c - 1461*d/4
+		m := (5*e + 2) / 153
+		return fmt.Sprintf("%04d/%02d/%02d", 100*b+d-4800+m/10, m+3-12*(m/10), e-(153*m+2)/5+1)
+	}
+	if fromDayNumber(dayNumber("2021/03/01")) != "2021/03/01" || fromDayNumber(dayNumber("2020/12/31")-30) != "2020/12/01" {
+		hfail("fromDayNumber is wrong")
+	}
+	w.Explore("daylight-saving-zones", ExploreOpts{ShardDepth: 3}, func(x *Exec) {
+		zone := dstZones[x.Choose(len(dstZones), "env:tz")]
+		today := dstTodays[x.Choose(len(dstTodays), "input:today")]
+		kw := x.Choose(len(c06KeywordList), "input:keyword")
+		side := x.Choose(3, "input:bound") // begin, end, both
+		cmd := [][]string{{"print"}, {"reg"}, {"report", "quantity"}}[x.Choose(3, "input:command")]
+		if !zoneAvailable(zone) {
+			x.Case("zone-not-available|"+zone, false)
+			x.Note("tz_database_zone_missing", 1)
+			return
+		}
+		bn := dayNumber(today) - []int{0, 1, 7, 30}[kw]
+		var lg, sel absLog
+		for i, off := range []int{-31, -8, -2, -1, 0, 1, 2, 8, 31} {
+			d := absDay{Date: fromDayNumber(bn + off), Entries: []absIng{{fmt.Sprintf("m%d", i), float64(i + 1)}, {"r", 1}}}
+			lg = append(lg, d)
+			if (side == 0 && off >= 0) || (side == 1 && off <= 0) || (side == 2 && off == 0) {
+				sel = append(sel, d)
+			}
+		}
+		args := []string{"--no-color", "--today", today}
+		k := c06KeywordList[kw]
+		switch side {
+		case 0:
+			args = append(args, "-b", k)
+		case 1:
+			args = append(args, "-e", k)
+		default:
+			args = append(args, "-b", k, "-e", k)
+		}
+		c := appCase{Args: append(args, cmd...), Files: map[string]string{"food.yaml": bookText, "log.yaml": renderLog(lg)}, TZName: zone}
+		r := runApp(c)
+		ref := runApp(appCase{Args: append([]string{"--no-color", "--today", today}, cmd...), Files: map[string]string{"food.yaml": bookText, "log.yaml": renderLog(sel)}})
+		x.Obs(r.Key())
+		x.Case(fmt.Sprint(zone, today, k, side, cmd), true)
+		if r.Failed != ref.Failed || r.Stdout != ref.Stdout {
+			x.Violate("C06|"+strings.Join(cmd, " ")+"|daylight-saving-zone|differs-from-restricted-log", fmt.Sprintf("`%s` (--today %s, bound %s = %s)\nprinted:\n%s\nwith the other days deleted and no period the same command prints:\n%s", c.shell(), today, k, fromDayNumber(bn), r.String(), ref.String()),
+				map[string]interface{}{"cmd": c.shell(), "observed": r.String(), "expected": ref.String()})
+		}
+	})
 	smallBounds := []string{"", "2021/01/24", "2021/01/25", "2021/01/26", "today", "yesterday", "last7"}
 	w.Explore("all-period-aware-command-shapes", ExploreOpts{ShardDepth: 4}, func(x *Exec) {
 		si := x.Choose(len(shapes), "input:command-shape")
